@@ -42,6 +42,10 @@ ENCODING = ["fcp.encoding:PackedEncoder._get_type_length", "fcp.encoding:PackedE
             "fcp.specs.v2:FcpV2.get_struct", "fcp.specs.v2:FcpV2.get_enum", "fcp.specs.enum:Enum.get_packed_size",
             "fcp.specs.type:NumericType.get_length", "fcp.specs.enum:Enum.max", "lemmas:max_is_enum_max"]
 
+# per-function solver budgets (ms) above the tier default: sized so that the verdict does not flip on a loaded machine
+SLOW = {"fcp.serde:_decode": 60000, "fcp.serde:_decode_str": 30000, "fcp.serde:decode": 30000, "fcp.serde:_encode": 30000,
+        "fcp.serde:_decode_dynamic_array": 30000, "fcp.serde:_encode_struct": 30000}
+
 PLANS = {
     "C04": {
         "targets": ENCODING,
